@@ -128,6 +128,14 @@ def bounds_ok(prog, c, bi, t):
     return ncalls > 0
 
 
+def _oracle_forms(prog, subj):
+    """subj and, when it names a local constructor helper (`Oracle::post_rates(denom, &rates)`), its inlining forms"""
+    from engine.analysis import forms
+    if any(s_[0] == "call" and prog.body(s_[1]) is not None for s_ in subterms(subj)):
+        return [subj] + list(forms(prog, subj, 2))
+    return [subj]
+
+
 def run(R, env):
     prog = env.prog("default")
     R.rule("C16.R1", "inventory: every unwrap / expect / index / slice / explicit panic construct in non-derive code reachable from the entry points of both contracts is listed and must be discharged by R2")
@@ -237,7 +245,7 @@ def run(R, env):
                     used_just.add(jk)
                 if how is None and kind == "unwrap" and d == "payload(Map::may_load(batches))" and any(is_load(prog, s_, "pending_batch_id", "staking") for s_ in subterms(subj)):
                     how = "I4'"  # the pending batch always exists (C06.R1 pairing of PENDING_BATCH_ID with BATCHES.save)
-                if how is None and (kind, d) in JUSTIFIED_ANYWHERE and (d not in ("serde_json::to_string", "serde_json::to_vec", "cosmwasm_std::to_json_string", "cosmwasm_std::to_json_vec", "cosmwasm_std::to_json_binary") or any(s_[0] == "agg" and s_[1].endswith("oracle::Oracle") for s_ in subterms(subj))) and not k.endswith("::instantiate"):
+                if how is None and (kind, d) in JUSTIFIED_ANYWHERE and (d not in ("serde_json::to_string", "serde_json::to_vec", "cosmwasm_std::to_json_string", "cosmwasm_std::to_json_vec", "cosmwasm_std::to_json_binary") or any(s_[0] == "agg" and s_[1].endswith("oracle::Oracle") for f_ in _oracle_forms(prog, subj) for s_ in subterms(f_))) and not k.endswith("::instantiate"):
                     how = "I4'"
                 R.ob("C16.R2", "%s:%s" % (kind, d), how is not None, "%s of %s is not dominated by a test of the same value and is not in the reviewed justification table (descriptor `%s`)" % (kind, fmt(subj)[:160], d), loc=b.loc(bi), fn=k)
                 if how:
